@@ -18,7 +18,7 @@ func init() {
 			"(R-WRAPID) the wrapper installed by calAndSetEventNode calls the captured original operator with its own (ctx, params) unchanged and returns exactly that call's two results, and reports name, a copy of the arguments taken BEFORE the operator is applied (D15), result and error of that very call; (R-EVNOOP) in Eval and TryEval, along the edge from the event arm to the loop latch every loop-carried variable is its loop-header value and the arm stores nothing: an event node only calls reportEvent(e, os, osTop, curt.value); " +
 			"(R-DUMPSKIP) Dump's child enumeration excludes nodes of kind event, so the decompiled text does not depend on event mode; (R-EVGATE) calAndSetEventNode runs only under ReportEvent or Debug. Writes of the wrapper/reportEvent beyond the send are excluded by C07 R-EFFECT. (R-EVREMAP) calAndSetEventNode rebuilds node array and parent table entry by entry in step (an event node mirrors its real node), records every appended node's position in the index table keyed by its original index, and relabels scIdx through the real-node table and parents through the event/real table under the -1 guards. NOT decided: ordering of OP_EXEC events relative to evaluation order. (R-EVSTACK) the LOOP event's Stack has osTop+1 elements, element i from os[i] for every i, complete before the send.",
 		Run:       runC12,
-		Witnesses: c12Witnesses,
+		Witnesses: append(append([]Witness{}, delWitnessesC12...), c12Witnesses...),
 	})
 }
 
@@ -26,6 +26,7 @@ func runC12(w *World, r *Report) {
 	ruleEvFresh(w, r)
 	ruleEvStack(w, r)
 	ruleWrapID(w, r)
+	ruleWrapAll(w, r)
 	ruleEvNoop(w, r)
 	ruleDumpSkip(w, r)
 	ruleEvGate(w, r)
@@ -554,7 +555,7 @@ func ruleEvGate(w *World, r *Report) {
 	}
 }
 
-var c12Witnesses = []Witness{
+var c12Witnesses = append(wrapAllWitnesses, []Witness{
 	{Name: "loop-event-stack-copy-leaves-after-eight", Rule: "R-EVSTACK", Edits: []Edit{
 		{File: "engine.go", Old: "	for i := int16(0); i <= osTop; i++ {\n		stack[i] = os[i]\n	}", New: "	for i := int16(0); i <= osTop; i++ {\n		if i > 7 {\n			break\n		}\n		stack[i] = os[i]\n	}"}}},
 	{Name: "loop-event-stack-misses-top", Rule: "R-EVSTACK", Edits: []Edit{
@@ -589,7 +590,7 @@ var c12Witnesses = []Witness{
 		{File: "engine.go", Old: "	stack := make([]Value, osTop+1)\n	for i := int16(0); i <= osTop; i++ {\n		stack[i] = os[i]\n	}", New: "	stack := make([]Value, osTop+1)\n	copy(stack, os)"}}},
 	{Name: "benign-wrapper-copy-with-make", Benign: true, Edits: []Edit{
 		{File: "compiler.go", Old: "			args := append([]Value(nil), params...)\n", New: "			cp := make([]Value, len(params))\n			copy(cp, params)\n			args := cp\n"}}},
-}
+}...)
 
 // ---- R-EVSTACK ----------------------------------------------------------------
 
